@@ -83,7 +83,12 @@ fn still_fails(plan: &Plan, property: &str, oracle_id: &str, budget: &mut u32) -
         return false;
     }
     *budget -= 1;
-    run_plan(plan, property).violations.iter().any(|v| v.oracle == oracle_id)
+    // "oracle" or "oracle\u{1}sig": the same violation class must persist while shrinking
+    let (o, sig) = match oracle_id.split_once('\u{1}') {
+        Some((o, s)) => (o, Some(s)),
+        None => (oracle_id, None),
+    };
+    run_plan(plan, property).violations.iter().any(|v| v.oracle == o && sig.map_or(true, |s| v.sig == s))
 }
 
 pub fn minimise(plan: &Plan, property: &str, oracle_id: &str) -> Plan {
@@ -519,9 +524,9 @@ pub fn check(a: &CheckArgs, meta: &CheckMeta) -> i32 {
         }
         // minimise and write the replay file
         let original = gen::plan_for(&a.property, *seed);
-        let min = minimise(&original, &a.property, &v.oracle);
+        let min = minimise(&original, &a.property, &format!("{}\u{1}{}", v.oracle, v.sig));
         let o = run_plan(&min, &a.property);
-        let mv = o.violations.iter().find(|x| x.oracle == v.oracle).cloned().unwrap_or(v.clone());
+        let mv = o.violations.iter().find(|x| x.oracle == v.oracle && x.sig == v.sig).cloned().unwrap_or(v.clone());
         let path = write_replay(&a.property, *seed, &min, &original, &mv, o.hash);
         println!("violation (seed {seed}): {} :: {}", mv.oracle, mv.detail);
         println!("VIOLATION property={} replay={}", a.property, path);
